@@ -330,6 +330,13 @@ func genInputs(kind string, seed int64, n int) []N {
 			}
 		}
 	case "deep":
+		// recursion that does not grow the VM's frame stack: through deferred calls, through callbacks of builtins
+		add("func f() {\ndefer f()\n}\nf()")
+		add("func f(n) {\ndefer func() {\nf(n + 1)\n}()\nreturn n\n}\nf(0)")
+		add("func f(n) {\ndefer f(n + 1)\nreturn [n].map(func(x) { return x })\n}\nf(0)")
+		add("func f(x) {\nreturn [x].map(f)\n}\nf(1)")
+		add("func f(x) {\nreturn try(func() { return f(x) })\n}\nf(1)")
+		add("func f(x) {\nreturn sorted([x, x], func(a, b) { f(a)\n return true })\n}\nf(1)")
 		for _, d := range []int{10, 1000, 5000} {
 			add(strings.Repeat("(", d) + "1" + strings.Repeat(")", d))
 			add(strings.Repeat("[", d) + "1" + strings.Repeat("]", d))
